@@ -12,7 +12,7 @@ def origin_chain(repo, res, hops):
         d = Defs(f)
         hit = False
         for c in own_nodes(f):
-            if isinstance(c, ast.Call) and U(c.func).split(".")[-1] == callee:
+            if isinstance(c, ast.Call) and (U(c.func).split(".")[-1] == callee or U(d.inline(c.func)).replace(" ", "") == callee.replace(" ", "")):
                 val = None
                 if isinstance(key, int):
                     val = c.args[key] if len(c.args) > key else None
@@ -37,7 +37,7 @@ def run(repo, res):
         ("core", "variational_gamma", "VariationalGammaMethod", "allow_unary", {"<param allow_unary>"}),
         ("core", "VariationalGammaMethod.run", "ExpectationPropagation", "allow_unary", {"self.allow_unary"}),
         ("variational", "ExpectationPropagation.__init__", "_check_valid_inputs", 2, {"<param allow_unary>"}),
-        ("core", "EstimationMethod.__init__", "mk_prior", "allow_unary", {"self.allow_unary"}),
+        ("core", "EstimationMethod.__init__", "getattr(prior, self.prior_grid_func_name)", "allow_unary", {"self.allow_unary"}),
         ("prior", "prior_grid", "MixturePrior", 4, {"<param allow_unary>"}),
         ("prior", "MixturePrior.__init__", "SpansBySamples", "allow_unary", {"<param allow_unary>"}),
     ])
